@@ -80,15 +80,22 @@ def eval_solid(case):
             bad("ConvexSpheropolyhedron", "construct", f"radius {float(r)} rejected: {e}")
             continue
         rt = ["r0" if r == 0 else "r_small" if rf[0] * 10 <= rf[1] else "r_large"]
-        for obs, kind, term in (("volume", "volume", c["steiner_volume"]), ("surface_area", "area", c["steiner_area"]),
-                                ("mean_curvature", "length", c["steiner_curvature"])):
-            try:
-                want = ev(term, env)
-                got = getattr(Q, obs)
-                if not close(kind, want, got):
-                    bad("ConvexSpheropolyhedron", obs, f"{obs} = {float(got)!r} at r = {float(r)!r}, Steiner formula gives {float(want)!r}", rt)
-            except Exception as e:
-                bad("ConvexSpheropolyhedron", obs, f"raised {type(e).__name__}: {e}", rt)
+        # the same rounded solid reached by queries and public setters (ShapeMachine: ReachByHistory) obeys the same formulas
+        from .history import reach
+        Qh = reach("ConvexSpheropolyhedron", verts, float(r), variant=len(rec["v"]) + rf[0]) if r > 0 else None
+        for QQ, how in ((Q, []), (Qh, ["reached_by_history"])):
+            if QQ is None:
+                continue
+            for obs, kind, term in (("volume", "volume", c["steiner_volume"]), ("surface_area", "area", c["steiner_area"]),
+                                    ("mean_curvature", "length", c["steiner_curvature"])):
+                try:
+                    want = ev(term, env)
+                    got = getattr(QQ, obs)
+                    if not close(kind, want, got):
+                        bad("ConvexSpheropolyhedron", obs, f"{obs} = {float(got)!r} at r = {float(r)!r}, Steiner formula gives {float(want)!r}"
+                            + (" (shape reached through queries and setters)" if how else ""), rt + how)
+                except Exception as e:
+                    bad("ConvexSpheropolyhedron", obs, f"raised {type(e).__name__}: {e}", rt + how)
         if r == 0:
             for obs in ("volume", "surface_area", "mean_curvature"):
                 if not close("volume", getattr(P, obs), getattr(Q, obs)):
@@ -168,6 +175,21 @@ def eval_box_inside(case):
     keep = [i for i, m in enumerate(rec["mem"]) if m != 2]
     pts = np.array(fl(pl.points([(F(rec["q2"][i][0], 2), F(rec["q2"][i][1], 2), F(rec["q2"][i][2], 2)) for i in keep])), dtype=float)
     want = np.array([rec["mem"][i] == 1 for i in keep])
+    # the same solid reached by queries and public setters (ShapeMachine: ReachByHistory) must answer the same
+    from .history import reach
+    Qh = reach("ConvexSpheropolyhedron", verts, float(pl.s * r), variant=sum(hx) + int(rec["r2"])) if r > 0 else None
+    if Qh is not None:
+        try:
+            got = np.asarray(Qh.is_inside(pts)).astype(bool)
+            if got.shape != want.shape or not np.array_equal(got, want):
+                j = int(np.nonzero(got != want)[0][0]) if got.shape == want.shape else 0
+                out.append(({"cls": "ConvexSpheropolyhedron", "obs": "is_inside", "tags": tags + ["reached_by_history"],
+                             "msg": f"after queries, a resize and a move through public setters: point (half-lattice {rec['q2'][keep[j]]}) reported "
+                                    f"{bool(got[j]) if got.shape == want.shape else got.shape}, exact: distance to the core "
+                                    f"{'<' if want[j] else '>'} r = {float(r)}"}, {"case": case}))
+        except Exception as e:
+            out.append(({"cls": "ConvexSpheropolyhedron", "obs": "is_inside", "tags": tags + ["raised", "reached_by_history"],
+                         "msg": f"raised {type(e).__name__}: {str(e)[:200]}"}, {"case": case}))
     try:
         got = np.asarray(Q.is_inside(pts)).astype(bool)
         if got.shape != want.shape or not np.array_equal(got, want):
